@@ -84,7 +84,7 @@ struct markerStruct
 #define tainted_data_specialization_helper(MaybeConst, T, libId)               \
                                                                                \
   template<typename T_Sbx>                                                     \
-  class tainted_volatile<MaybeConst T, T_Sbx>                                  \
+  class RLBOX_MAY_ALIAS tainted_volatile<MaybeConst T, T_Sbx>                  \
   {                                                                            \
     KEEP_CLASSES_FRIENDLY                                                      \
     KEEP_CAST_FRIENDLY                                                         \
@@ -172,7 +172,7 @@ struct markerStruct
   };                                                                           \
                                                                                \
   template<typename T_Sbx>                                                     \
-  class tainted<MaybeConst T, T_Sbx>                                           \
+  class RLBOX_MAY_ALIAS tainted<MaybeConst T, T_Sbx>                           \
   {                                                                            \
     KEEP_CLASSES_FRIENDLY                                                      \
     KEEP_CAST_FRIENDLY                                                         \
